@@ -1015,6 +1015,52 @@ Proof.
   apply (new_path_empty_var d_v S t p x (d_v x) Hs Hd (own_var_ok S t Hd Hq) Hn Htop (val_ok_own S t p x Hs Hd Hn)).
 Qed.
 
+(* ---------- lyd_change_term(): the path after a change of value ---------- *)
+Lemma nth_error_mid {A} (f : list A) i y z : nth_error f i = Some y ->
+  nth_error (firstn i f ++ z :: skipn (S i) f) i = Some z.
+Proof.
+  intro H. assert (Hi : (i < length f)%nat) by (apply nth_error_Some; congruence).
+  rewrite nth_error_app2; rewrite firstn_length; [|lia].
+  replace (i - Nat.min i (length f))%nat with O by lia. reflexivity.
+Qed.
+
+Lemma node_at_set_val p : forall f x cw,
+  node_at f p = Some x -> node_at (set_val f p cw) p = Some (DN (d_m x) (d_n x) (d_k x) cw (d_ch x)).
+Proof.
+  induction p as [|i p IH]; intros f x cw H; [discriminate|].
+  cbn [node_at set_val] in *. destruct (nth_error f i) as [y|] eqn:En; [|discriminate].
+  rewrite (nth_error_mid f i y _ En). destruct p as [|j p].
+  - inversion H; subst y. reflexivity.
+  - cbn [d_ch]. apply IH. exact H.
+Qed.
+
+(* the changed tree t' holds the canonical form of the new text in the node at p; whenever t' is well-formed again (the
+   new key tuple / leaf-list value is not the one of a sibling: dwf, decidable) and has no value with both quote
+   characters, every node of t' - the changed one, the list instance it is a key of, everything below that instance - is
+   found by its NEW printed path and creating it reports LY_EEXIST *)
+Theorem change_term_paths S t p w t' :
+  swf S = true -> change_term t p w = Some t' -> dwf S t' = true -> quotes_ok t' = true ->
+  (exists x cw, node_at t p = Some x /\ canon (kind_ty (d_k x)) w = Some cw /\
+                node_at t' p = Some (DN (d_m x) (d_n x) (d_k x) cw (d_ch x)) /\
+                is_dflt (DN (d_m x) (d_n x) (d_k x) cw (d_ch x)) = false) /\
+  (forall q y, node_at t' q = Some y ->
+     exists bs, path_of t' q = Some bs /\ find_path S t' bs = FRes (EFound q) /\
+                forall v, new_path S t' bs v = if is_dflt y then NCreated None [] else NErr E_EXIST).
+Proof.
+  intros Hs Hc Hd Hq. split.
+  - unfold change_term in Hc. destruct (node_at t p) as [x|] eqn:Hn; [|discriminate].
+    destruct (d_k x) as [pr|kl cw0|cw0 ty|ik ty|] eqn:Ek; try discriminate.
+    + destruct (canon ty w) as [cw|] eqn:Ec; [|discriminate]. inversion Hc; subst t'.
+      exists x, cw. rewrite Ek. cbn [kind_ty]. split; [reflexivity|]. split; [exact Ec|].
+      split; [rewrite <- Ek; apply node_at_set_val; exact Hn|reflexivity].
+    + destruct (canon ty w) as [cw|] eqn:Ec; [|discriminate]. inversion Hc; subst t'.
+      exists x, cw. rewrite Ek. cbn [kind_ty]. split; [reflexivity|]. split; [exact Ec|].
+      split; [rewrite <- Ek; apply node_at_set_val; exact Hn|reflexivity].
+  - intros q y Hy. exists (path_var d_v t' q). split; [apply (path_of_var t' q y Hy)|].
+    split; [apply (find_var d_v S t' q y Hs Hd (own_var_ok S t' Hd Hq) Hy)|].
+    intro v. apply (new_path_exists_var d_v S t' q y v Hs Hd (own_var_ok S t' Hd Hq) Hy).
+Qed.
+
 (* ---------- a non-trivial tree that meets the hypotheses, and the limits of the theorems ---------- *)
 From Coq Require Import String Ascii.
 From LY Require IntLex.
@@ -1137,6 +1183,28 @@ Lemma ex_hyps :
   path_of ex_t [1; 2; 0]%nat = Some (sb "/m1:st/kl[3]/x") /\
   path_of ex_t [1; 4]%nat = Some (sb "/m1:st/sl[2]") /\
   new_path ex_S [] (sb "/m1:st/kl[3]/x") (sb "2") = NCreated None (spine ex_t [1; 2; 0]%nat).
+Proof. vm_compute. repeat split. Qed.
+
+(* regression example for the class of seeded change C15-8 (stale identity after lyd_change_term): a key of a two-key list
+   instance, a typed key given in non-canonical spelling and a configuration leaf-list value are changed; afterwards every
+   node of the changed tree is found by its new printed path and re-creation reports LY_EEXIST *)
+Definition changed_ok (p : list nat) (w : bytes) : bool :=
+  match change_term ex_t p w with
+  | Some t' => dwf ex_S t' && quotes_ok t' && forallb (own_ok ex_S t') (all_pos t' O)
+  | None => false
+  end.
+
+Lemma change_term_example :
+  changed_ok [0; 1; 1]%nat (sb "new ]'v") = true /\
+  changed_ok [0; 2; 0]%nat (sb " +09 ") = true /\
+  changed_ok [0; 0; 3; 2]%nat (sb "z") = true /\
+  (match change_term ex_t [0; 2; 0]%nat (sb " +09 ") with
+   | Some t' => path_of t' [0; 2; 3]%nat
+   | None => None
+   end) = Some (sb "/m1:c/tl[n='9'][b='true'][e='a b']/u") /\
+  change_term ex_t [0; 2; 0]%nat (sb "128") = None /\
+  (* a change that makes two instances equal is outside the theorem: the tree is not well-formed any more *)
+  (match change_term ex_t [0; 1; 1]%nat (sb "[x]'y/") with Some t' => dwf ex_S t' | None => true end) = false.
 Proof. vm_compute. repeat split. Qed.
 
 (* a key value with both quote characters (the known defect of Properties_C15_ytext.v, at path level): the printed path
